@@ -309,6 +309,7 @@ pub fn run(ctx: &Ctx) -> i32 {
         (mk_base("d1", gen::d1(&Fmt::Rgba)), if thorough { 2 } else { 1 }),
         (mk_base("d1i", gen::d1(&Fmt::Indexed(4))), 1),
         (mk_base("four", four), if thorough { 3 } else { 2 }),
+        (mk_base("big", gen::big()), 1),
     ];
     for (base, k) in &bases {
         let fam = format!("ball-{}-k{}", base.name, k);
